@@ -505,3 +505,8 @@ func (e *FlagEval) eval(x ast.Expr, env fenv) (uint64, bool) {
 	}
 	return 0, false
 }
+
+// EvalExpr evaluates x with the flag set to v (ok=false when x depends on anything else).
+func (e *FlagEval) EvalExpr(x ast.Expr, v uint64) (uint64, bool) {
+	return e.eval(x, fenv{v, true})
+}
